@@ -33,6 +33,15 @@ def judge(ctx, res, w, replay_saved=True):
     from playback.tape_recorder import TapeRecorder
     from playback.exceptions import RecordingKeyError
     fin = res.spy.finalisation(since=res.log_start)
+    if res.live.prog.get('inner_prog') is not None:
+        # an inner operation called after the outer recording was discarded legitimately records itself: its own recording is not
+        # the one being judged here
+        inner_cat = 'GenOp%d' % res.live.prog['inner_prog']['uid']
+        inner_oids = set(e[1] for e in res.spy_events if e[0] == 'create' and e[3] == inner_cat)
+        if inner_oids:
+            ctx.count('inner_operations_recorded_on_their_own', len(inner_oids))
+            res.spy_events = [e for e in res.spy_events if e[1] not in inner_oids]
+            fin = {oid: f for oid, f in fin.items() if oid not in inner_oids}
     ctx.count('recordings_created', len(fin))
     for oid, f in fin.items():
         total = f['save'] + f['abort']
@@ -87,6 +96,16 @@ def judge(ctx, res, w, replay_saved=True):
 def run(ctx):
     nprog = 10 if ctx.quick else 60
     progs = fr.base_programs(ctx.seed + 101, nprog)
+    irng = random.Random(ctx.seed + 77)
+    for prog in progs:
+        if irng.random() < 0.3:
+            # the operation calls ANOTHER decorated operation (own class, own recording parameters, or skipped) from its body
+            prog['inner_prog'] = {'seed_world': 7, 'class_level': False, 'extractor': None, 'params': irng.choice([None, None, {'skipped': True}]),
+                                  'inputs': [], 'outputs': [], 'opts': {'raise_rate': 0.0}, 'uid': prog.get('uid', 0) + 700000,
+                                  'body': [{'op': 'return', 'value': {'lit': 'inner-result'}}]}
+            body = prog['body']
+            last = len(body) - (1 if body and body[-1]['op'] in ('return', 'raise') else 0)
+            body.insert(irng.randrange(last + 1), {'op': 'inner_op'})
     rng = ctx.rng
     idx = 0
     for pi, prog in enumerate(progs):
